@@ -115,6 +115,43 @@ pub fn rewrites(base: &Program, tier: Tier) -> Vec<Rewrite> {
             }
         }
     }
+    // R3w: a window / aggregation function applied to a column -> a user function whose body is that application
+    {
+        fn replace_win(e: &mut E, fidx: usize) -> Option<WinFn> {
+            match e {
+                E::Win(w, Some(c)) => {
+                    let (w, c) = (*w, *c);
+                    *e = E::Call(fidx, vec![E::Col(c)]);
+                    Some(w)
+                }
+                E::Bin(_, l, r) => replace_win(l, fidx).or_else(|| replace_win(r, fidx)),
+                E::IsNull(x) => replace_win(x, fidx),
+                _ => None,
+            }
+        }
+        fn in_steps(steps: &mut [Step], fidx: usize) -> Option<WinFn> {
+            for s in steps.iter_mut() {
+                let r = match s {
+                    Step::Derive(items) | Step::Select(items) => items.iter_mut().find_map(|it| replace_win(&mut it.e, fidx)),
+                    Step::Filter(e) => replace_win(e, fidx),
+                    Step::Group { inner, .. } | Step::Window { inner, .. } => in_steps(inner, fidx),
+                    _ => None,
+                };
+                if r.is_some() {
+                    return r;
+                }
+            }
+            None
+        }
+        for (kind, style) in [("R3w-window-fn-positional", CallStyle::Plain), ("R3w-window-fn-piped", CallStyle::Piped)] {
+            let mut p = base.clone();
+            let fidx = p.funcs.len();
+            if let Some(w) = in_steps(&mut p.main.as_mut().unwrap().steps, fidx) {
+                p.funcs.push(UserFn { name: "wf".into(), params: vec!["pp".into()], named: vec![], style, body: E::Win(w, Some(0)) });
+                out.push(Rewrite { kind, site: 0, prog: p, against: None });
+            }
+        }
+    }
     // R4: conjunctive filter vs consecutive filters (both forms are derived from the base filter)
     for (si, s) in m.steps.iter().enumerate() {
         if let Step::Filter(e) = s {
@@ -187,6 +224,17 @@ pub fn run(tier: Tier) -> i32 {
     let (order_progs, st_o) = enumerate(&[order_cfg]);
     let n_general = progs.len();
     progs.extend(order_progs.into_iter().filter(|(p, _, _)| p.main.as_ref().map(|m| m.steps.iter().any(|s| matches!(s, Step::Take(..)))).unwrap_or(false)));
+    // window bases (the C04 generator): they get the R3w rewrite only
+    let n_before_window = progs.len();
+    {
+        let (wp, _) = crate::engine::collect(0, |c| crate::c04::gen(c, Tier::Quick));
+        let mut seen = std::collections::HashSet::new();
+        for (p, ch) in wp {
+            if seen.insert(pr_program(&p)) {
+                progs.push((p, ch, Default::default()));
+            }
+        }
+    }
     let st = crate::engine::Stats { executions: st.executions + st_o.executions, points: st.points + st_o.points, ..st };
     let pool = inst::pool();
     // 1. base programs on which the implementation agrees with the model
@@ -199,7 +247,10 @@ pub fn run(tier: Tier) -> i32 {
             continue;
         }
         for r in rewrites(p, tier) {
-            if i >= n_general && !(r.kind.starts_with("R1") || (tier == Tier::Thorough && (r.kind.starts_with("R2") || r.kind.starts_with("R6")))) {
+            if (i >= n_before_window) != r.kind.starts_with("R3w") {
+                continue;
+            }
+            if i >= n_general && i < n_before_window && !(r.kind.starts_with("R1") || (tier == Tier::Thorough && (r.kind.starts_with("R2") || r.kind.starts_with("R6")))) {
                 continue;
             }
             cases.push((r, i));
@@ -257,7 +308,7 @@ pub fn run(tier: Tier) -> i32 {
     }
     run.states = progs.len() as u64 + cases.len() as u64;
     run.transitions = st.points + cases.len() as u64;
-    run.set("bounds", json!({"base_configs": cfgs.iter().map(|c| format!("{c:?}")).collect::<Vec<_>>(), "rewrites": ["R1 let prefix","R2 into prefix","R6 module path","R3 user function (positional / named default omitted / named default given / piped / parameter named like a column)","R4 conjunctive vs consecutive filters","R5 identities (filter true, select frame, derive-then-drop, repeat sort)"], "sites": "every applicable site", "instances": pool.len()}));
+    run.set("bounds", json!({"base_configs": cfgs.iter().map(|c| format!("{c:?}")).collect::<Vec<_>>(), "rewrites": ["R1 let prefix","R2 into prefix","R6 module path","R3 user function (positional / named default omitted / named default given / piped / parameter named like a column)","R3w window function behind a user function (on the C04 window programs)","R4 conjunctive vs consecutive filters","R5 identities (filter true, select frame, derive-then-drop, repeat sort)"], "sites": "every applicable site", "instances": pool.len()}));
     run.set("rule", json!("state = base program or (base, site, rewrite); every rewritten program is compiled, executed and compared with the reference of the base program (the model proves base ≡ rewritten first); base programs on which the implementation already disagrees with the model are left to C01"));
     run.assume("differential over the reference model: base programs that already disagree with the model (C01 findings) are skipped here");
     run.finish()
